@@ -329,7 +329,13 @@ impl Database {
 
         if dirty_regions.is_empty() {
             debug!("{}: flush (no dirty)", self);
-            self.layout_mut().promote_pending_holes(self.name());
+            // A removed region leaves no dirty region behind, only a zeroed metadata slot.
+            // That slot must be durable before the freed extent becomes reusable.
+            if self.layout().has_pending_holes() {
+                self.regions().flush()?;
+                self.regions().sync_data()?;
+                self.layout_mut().promote_pending_holes(self.name());
+            }
             return Ok(0);
         }
 
